@@ -32,6 +32,7 @@ ENGINES = {  # name -> number in Model/Engines.v
     "cli5": 40,
     "limiter": 35,
     "payload": 41, "sized3": 13, "sized5": 23,
+    "plstop3": 42, "plstop5": 43,
     "iostate": 36,
     "timerrt": 37,
     "hs": 38,
